@@ -245,6 +245,9 @@ func abs64(x int64) int64 {
 func genC26(g *Gen, idx int) *Plan {
 	cfg := g.BaseCfg()
 	cfg.Sched = g.Sched("client/", "gateway/handler1.go", "gateway/broker_publish")
+	// "a lossless link": nothing is lost and nothing overtakes. (When datagrams overtake each other a
+	// PUBLISH can reach the client before the REGACK/SUBACK announcing its topic id, which no client can resolve.)
+	cfg.SN.FIFO = true
 	nc := 1
 	if g.Bool(0.25) {
 		nc = 2
@@ -333,6 +336,16 @@ func genC26(g *Gen, idx int) *Plan {
 			}
 			p.Broker.Injects = append(p.Broker.Injects, in)
 		}
+	}
+	// retained messages: the broker publishes them when a matching SUBSCRIBE arrives, some before the SUBACK
+	if g.Bool(0.35) {
+		for k := 0; k < int(g.Range(1, 3)); k++ {
+			topic := append(append([]string{}, namePool...), "t/new1", "ab", "pre/1")[g.Intn(len(namePool)+3)]
+			p.Broker.Retained = append(p.Broker.Retained, BrokerRetained{Topic: topic, Payload: serialPayload("r", k, int(g.Range(0, 10))), QoS: uint8(g.Intn(3)), Early: g.Bool(0.6)})
+		}
+	}
+	if g.Bool(0.15) {
+		p.Broker.AnswerDelayMs = g.Range(20, 400)
 	}
 	p.Cfg.HorizonMs = total + 9000
 	return p
